@@ -320,9 +320,22 @@ def g_wf(e, tail=True):
     return all(g_wf(c, tail) for c in e[1])
 
 
+def g_dataends(e):
+    if e[0] == "atom":
+        t = e[1]
+        if t.startswith("@"):
+            t = t.split(":", 1)[1]
+        return 1 if t.split(":", 1)[0].split(".", 1)[0].split("=", 1)[0].lower() in ("cdata", "sdata", "data") else 0
+    if e[0] == "not":
+        return 0
+    if e[0] == "or":
+        return max(g_dataends(c) for c in e[1])
+    return sum(g_dataends(c) for c in e[1])
+
+
 def g_multiend(e):
     if e[0] == "and":
-        return True
+        return g_dataends(e) >= 2
     if e[0] in ("or", "then"):
         return any(g_multiend(c) for c in e[1])
     return False
